@@ -30,6 +30,8 @@ RTOL = 0.0
 ATOL = 0.0
 RULE = ('systematic sweep: every contracted operation of the table (%d of %d entries; the rest are recorded exemptions) x '
         'every call variant x 20 operand classes (pardim 1-3 x rational x periodic(first direction) x dimension 2/3; volumes in 3D), '
+        'each with dyadic AND with non-dyadic control-point data (k*0.1, k/3, k*pi/7, ...); vector/scalar/angle arguments also non-dyadic and '
+        'of magnitude 1e-3 ... 1e16 (so that a there-and-back rewrite (x+a)-a of an operand is visible bit for bit), '
         'extra operands (append/loft/edge_curves/sweep/...) drawn with independent rationality/dimension; plus random histories '
         '(2-6 steps quick, up to 14 thorough) over live handles.  distinct = distinct (class, operand data, history) request lines; '
         'non-trivial = at least one step of the history completed without raising.'
@@ -58,7 +60,8 @@ REQUIRED_TAGS = (['ran:' + e.name for e in CONTRACTED]
                  + ['ok:' + e.name for e in CONTRACTED if e.name not in T.ALWAYS_RAISES]
                  + ['contract:' + c for c in T.CONTRACTS]
                  + ['pd1', 'pd2', 'pd3', 'rational', 'nonrational', 'periodic', 'nonperiodic', 'dim2', 'dim3',
-                    'history', 'result:object', 'result:buffer', 'result:scalar', 'result:container'])
+                    'history', 'result:object', 'result:buffer', 'result:scalar', 'result:container',
+                    'operands:non-dyadic', 'operands:dyadic', 'args:non-dyadic-or-wide-magnitude'])
 
 # stable labels of the defect classes this check has found (see classify).  All but
 # `splinemodel-retains-operand` have been repaired in the library; the labels stay so that a
@@ -89,7 +92,24 @@ def cls_label(c):
     return 'pd%d-%s-%s-d%d' % (c[0], 'rat' if c[1] else 'nonrat', 'per' if c[2] else 'nonper', c[3])
 
 
-def class_object(rng, c, pmin=2, small=False):
+ND_UNITS = [0.1, 1.0 / 3.0, 3.141592653589793 / 7.0, 0.7, 1e-3, 1234.5678]
+
+
+def nondyadic_cps(rng, shape, ncomp, rational):
+    """Control net with NON-dyadic decimals (k*0.1, k/3, k*pi/7, …): (x + a) - a != x for almost every a."""
+    total = 1
+    for n in shape:
+        total *= n
+    rows = []
+    for _ in range(total):
+        row = [rng.randint(-40, 40) * rng.choice(ND_UNITS) + 0.05 for _ in range(ncomp)]
+        if rational:
+            row[-1] = rng.choice([0.3, 0.7, 1.0, 1.1, 4.0 / 3.0, 2.2])
+        rows.append(row)
+    return np.array(rows).reshape(tuple(shape) + (ncomp,)).tolist()
+
+
+def class_object(rng, c, pmin=2, small=False, nd=False):
     pd, rat, per, dim = c
     bases = []
     for d in range(pd):
@@ -102,13 +122,14 @@ def class_object(rng, c, pmin=2, small=False):
             bases.append(gen.open_basis(rng, p, n_interior=nint, max_mult=1))
     shape = [gen.basis_info(b)['n'] for b in bases]
     ncomp = dim + (1 if rat else 0)
-    return {'bases': bases, 'cps': gen.rand_cps(rng, shape, ncomp, rat), 'rational': bool(rat)}
+    cps = nondyadic_cps(rng, shape, ncomp, rat) if nd else gen.rand_cps(rng, shape, ncomp, rat)
+    return {'bases': bases, 'cps': cps, 'rational': bool(rat)}
 
 
-def loop4(rng, rat, dim):
+def loop4(rng, rat, dim, nd=False):
     """Four curves forming a directed closed loop bottom, right, top, left (end weights 1)."""
     z = [gen.dyadic(rng, -1, 1) if dim == 3 else None for _ in range(4)]
-    corners = [[0.0, 0.0], [2.0, 0.0], [2.0, 1.5], [0.0, 1.5]]
+    corners = [[0.1, 0.2], [2.1, 0.2], [2.1, 1.0 / 3.0 + 1.2], [0.1, 1.0 / 3.0 + 1.2]] if nd else [[0.0, 0.0], [2.0, 0.0], [2.0, 1.5], [0.0, 1.5]]
     if dim == 3:
         corners = [c + [zz] for c, zz in zip(corners, z)]
     out = []
@@ -127,15 +148,15 @@ def loop4(rng, rat, dim):
                 w = 1.0
                 pt = base
             else:
-                pt = [base[k] + cps[j][k] / 16.0 for k in range(dim)]
+                pt = [base[k] + cps[j][k] / (10.0 if nd else 16.0) for k in range(dim)]
             cps[j] = [x * w for x in pt] + ([w] if r else [])
         out.append({'bases': [basis], 'cps': cps, 'rational': bool(r)})
     return out
 
 
-def faces6(rng, rat):
+def faces6(rng, rat, nd=False):
     """The six faces umin,umax,vmin,vmax,wmin,wmax of a random volume (as independent surfaces)."""
-    vol = class_object(rng, (3, rat, False, 3))
+    vol = class_object(rng, (3, rat, False, 3), nd=nd)
     cps = np.array(vol['cps'])
     b = vol['bases']
     out = []
@@ -148,35 +169,35 @@ def faces6(rng, rat):
     return out
 
 
-def operands_for(rng, e, c):
+def operands_for(rng, e, c, nd=False):
     """Operand specs of table entry `e` for primary class `c`; None when the shape does not apply."""
     pd, rat, per, dim = c
     if pd not in e.pardims:
         return None
     sh = e.shape
     if sh == 'O':
-        return [class_object(rng, c)]
+        return [class_object(rng, c, nd=nd)]
     if sh == 'OO':
         c2 = (pd, rng.random() < 0.5, per, rng.choice((2, 3)) if pd < 3 else 3)
-        return [class_object(rng, c), class_object(rng, c2)]
+        return [class_object(rng, c, nd=nd), class_object(rng, c2, nd=nd)]
     if sh == 'On2':
         c2 = (pd, rng.random() < 0.5, per, rng.choice((2, 3)))
-        return [class_object(rng, c, small=True), class_object(rng, c2, small=True)]
+        return [class_object(rng, c, small=True, nd=nd), class_object(rng, c2, small=True, nd=nd)]
     if sh == 'On':
         n = rng.choice((3, 4, 5))
-        return [class_object(rng, c, small=True) for _ in range(n)]
+        return [class_object(rng, c, small=True, nd=nd) for _ in range(n)]
     if sh == 'LOOP4':
-        return None if per else loop4(rng, rat, dim)
+        return None if per else loop4(rng, rat, dim, nd)
     if sh == 'FACES6':
-        return None if (per or dim == 2) else faces6(rng, rat)
+        return None if (per or dim == 2) else faces6(rng, rat, nd)
     if sh == 'PATH+C':
         if dim != 3:
             return None
-        return [class_object(rng, c, pmin=3), class_object(rng, (1, rng.random() < 0.3, rng.random() < 0.3, 2), small=True)]
+        return [class_object(rng, c, pmin=3, nd=nd), class_object(rng, (1, rng.random() < 0.3, rng.random() < 0.3, 2), small=True, nd=nd)]
     if sh == 'PATH+S':
         if dim != 3:
             return None
-        return [class_object(rng, c, pmin=3), class_object(rng, (2, rng.random() < 0.3, False, 2), small=True)]
+        return [class_object(rng, c, pmin=3, nd=nd), class_object(rng, (2, rng.random() < 0.3, False, 2), small=True, nd=nd)]
     raise ValueError(sh)
 
 
@@ -192,25 +213,27 @@ def generate(rng, tier):
     for e in CONTRACTED:
         for c in CLASSES:
             for v in range(e.variants):
-                for _ in range(reps):
-                    ops = operands_for(rng, e, c)
+                for rep in range(2 * reps):
+                    nd = rep % 2 == 1          # every (operation, class, variant) with dyadic AND non-dyadic operand data
+                    ops = operands_for(rng, e, c, nd)
                     if ops is None:
                         continue
-                    specs.append({'cls': cls_label(c), 'init': ops, 'flavour': rng.randint(0, 13),
+                    specs.append({'cls': cls_label(c), 'init': ops, 'flavour': rng.randint(0, 13), 'nd': nd,
                                   'steps': [{'op': e.name, 'args': list(range(len(ops))), 'v': v}]})
     nh = 150 if tier == 'quick' else 2500
     for i in range(nh):
         c = rng.choice(CLASSES[:16] if rng.random() < 0.85 else CLASSES)
-        init = [class_object(rng, c, small=True)]
+        nd = i % 2 == 1
+        init = [class_object(rng, c, small=True, nd=nd)]
         if rng.random() < 0.5:
             c2 = (c[0], rng.random() < 0.5, c[2], rng.choice((2, 3)) if c[0] < 3 else 3)
-            init.append(class_object(rng, c2, small=True))
+            init.append(class_object(rng, c2, small=True, nd=nd))
         n = rng.randint(2, 6 if tier == 'quick' else 14)
         steps = []
         for _ in range(n):
             e = rng.choice(CHAIN)
             steps.append({'op': e.name, 'pick': [rng.randint(0, 99), rng.randint(0, 99)], 'v': rng.randint(0, e.variants - 1)})
-        specs.append({'cls': cls_label(c), 'init': init, 'flavour': rng.randint(0, 13), 'steps': steps})
+        specs.append({'cls': cls_label(c), 'init': init, 'flavour': rng.randint(0, 13), 'nd': nd, 'steps': steps})
     return specs
 
 
@@ -593,6 +616,10 @@ def tags(spec, res):
     out = []
     c = spec['cls'].split('-')
     out += [c[0], 'rational' if c[1] == 'rat' else 'nonrational', 'periodic' if c[2] == 'per' else 'nonperiodic', 'dim' + c[3][1:]]
+    out.append('operands:non-dyadic' if spec.get('nd') else 'operands:dyadic')
+    for st in spec['steps']:
+        if st['op'] in T.WIDE_ARG_OPS and st['v'] >= (1 if st['op'].endswith('.extrude') else T.WIDE_FROM):
+            out.append('args:non-dyadic-or-wide-magnitude')
     if len(spec['steps']) > 1:
         out += ['history', 'hist-steps-%d' % len(r['steps'])]
     for s in r['steps']:
